@@ -2,6 +2,8 @@ import StorageModel.Cursor.KindsProofs
 import StorageModel.Cursor.StackedProofs
 import StorageModel.Cursor.ReuseProofs
 import StorageModel.Cursor.Multi
+import StorageModel.Cursor.WriteProofs
+import StorageModel.Cursor.World
 /-
   C14 — Every set cursor enumerates its set exactly, in order, and seeks correctly.
 
@@ -602,6 +604,286 @@ example : (Desc.tree .fwd false []).open.run [.next] = [.invalid, .invalid] := b
 example : (Desc.union .fwd (.setsym [[], [97]]) (.tfwd 5 [[98]])).open.run [.next, .next, .next] =
     [.value none, .value (some [97]), .value (some [98]), .invalid] := by decide
 
+
+/-! ### cursor objects re-opened / re-sought after the set under them was REWRITTEN (one write transaction)
+
+  Between the operations of one script the world is written: a `store.Update` deletes and re-creates
+  the list bucket of the row the cursor stands on, single keys are put or deleted, links added or removed,
+  entities created or deleted, the data a filter reads changes (Cursor/Write.lean, Cursor/World.lean).
+  A script is a list of items `writes; entry; operations`, the entry being `open k` (OpenCursor /
+  the provider / OpenSetCursorForQuery / IterateIds again) or `Seek v` / `SeekToString v` on the object
+  as it stands.  Guaranteed — and proved here for every world, every write function, every script and
+  EVERY state the object may be in (whatever it cached: bbolt cursor, bucket, position, value, row):
+  after the entry the object walks the CURRENT set.  Not promised (the model answers `unspecified`, the
+  same on both sides of every equation below): a re-seek on a cursor whose bucket object was replaced
+  (`ident` changed), or through the forward-only fallback loop; `Next` straight after a write. -/
+
+/-- **Every script over a written world: the set symbol follows the current world.**  For every
+    assignment of sets to rows per world, every bucket-identity function that tells existing from
+    missing buckets, every write function, every script of items and every initial state: item by item
+    the observations are those of the list specification of the row AS IT IS AT THAT ITEM. -/
+theorem write_script_setsym {ω κ ι W : Type} [DecidableEq ι] (rows : ω → κ → Option (List Bytes)) (ident : ω → κ → ι)
+    (hid : ∀ w0 w k, ident w0 k = ident w k → (rows w0 k).isSome = (rows w k).isSome)
+    (apply : W → ω → ω) (items : List (Item W κ)) (w : ω) (s : SetSymCur) :
+    (setSymW rows ident).run apply items w none s =
+      specRunW (fun w k => setRowSpec (rows w k)) (fun _ _ => renderNilEmpty) ident true apply items w none :=
+  (setSymW_implements rows ident hid).run_eq apply items w s
+
+/-- one `open` item in isolation, for an object implementing its row specifications: from EVERY state, after ANY writes -/
+theorem open_item {ω σ κ ι W : Type} [DecidableEq ι] {U : WObject ω σ κ ι} {S : ω → κ → Spec}
+    {r : ω → κ → Render} (h : U.Implements S r) (apply : W → ω → ω) (ws : List W) (k : κ) (ops : List Op) (w : ω) (s : σ) :
+    U.run apply [⟨ws, .open k, ops⟩] w none s =
+      ((S (applyAll apply ws w) k).openRun ops).map (Obs.render (r (applyAll apply ws w) k)) := by
+  rw [h.run_eq]
+  simp [specRunW, specEnter, Spec.openRun]
+
+/-- **Re-opened after a write: exactly the current set.**  Whatever state `s` the runtime set symbol is
+    in — left on any element of any row, opened on this very row `k` before the rewrite, exhausted, never
+    opened —, after ANY writes `ws` (the row's bucket deleted and re-created, keys put or deleted, the entity
+    deleted, …) `OpenCursor` on row `k` followed by any script shows the observations of a fresh cursor over
+    the set the row holds NOW; iterated to exhaustion: exactly its elements, once each, in key order. -/
+theorem reopen_after_write_enumerates_current {ω κ ι W : Type} [DecidableEq ι] (rows : ω → κ → Option (List Bytes))
+    (ident : ω → κ → ι) (hid : ∀ w0 w k, ident w0 k = ident w k → (rows w0 k).isSome = (rows w k).isSome)
+    (apply : W → ω → ω) (ws : List W) (k : κ) (ops : List Op) (w : ω) (s : SetSymCur) :
+    (setSymW rows ident).run apply [⟨ws, .open k, ops⟩] w none s =
+        (setRowDesc (rows (applyAll apply ws w) k)).open.run ops ∧
+    (setSymW rows ident).run apply [⟨ws, .open k, ops⟩] w none s =
+        ((setRowSpec (rows (applyAll apply ws w) k)).openRun ops).map (Obs.render renderNilEmpty) ∧
+    ∀ s', (setSymW rows ident).reopen (applyAll apply ws w) k s = .ok s' →
+      setSym.toList ((((rows (applyAll apply ws w) k).map dedupSort).getD []).length + 1) s' =
+        .ok ((((rows (applyAll apply ws w) k).map dedupSort).getD []).map renderNilEmpty) := by
+  have h := setSymW_implements rows ident hid
+  refine ⟨?_, open_item h apply ws k ops w s, ?_⟩
+  · rw [open_item h apply ws k ops w s, (setRowDesc_implements _).run_eq]
+  · intro s' hs'
+    have hR := setSym_reopen_row (rows (applyAll apply ws w) k) s
+    simp only [setSymW, Outcome.ok.injEq] at hs'
+    subst hs'
+    exact (setSym_refines_row _).toList_eq _ hR (by simp [setRowSpec, setSymSpec])
+
+/-- **SeekToString after re-opening after a write**: lands on the first element `≥ v` of the set the row
+    holds NOW (or the cursor is invalid), whatever the object cached and whatever was done since the open. -/
+theorem seek_after_reopen_after_write {ω κ ι W : Type} [DecidableEq ι] (rows : ω → κ → Option (List Bytes))
+    (ident : ω → κ → ι) (hid : ∀ w0 w k, ident w0 k = ident w k → (rows w0 k).isSome = (rows w k).isSome)
+    (apply : W → ω → ω) (ws : List W) (k : κ) (ops : List Op) (v : Bytes) (w : ω) (s : SetSymCur) :
+    ((setSymW rows ident).run apply [⟨ws, .open k, ops ++ [.seekS v]⟩] w none s).getLast? =
+      some (match ((((rows (applyAll apply ws w) k).map dedupSort).getD []).filter (fun x => decide (v ≤ x))).head? with
+        | some x => .value (renderNilEmpty x)
+        | none => .invalid) := by
+  rw [open_item (setSymW_implements rows ident hid), Spec.openRun, spec_run_snoc]
+  generalize hE : ((rows (applyAll apply ws w) k).map dedupSort).getD [] = E
+  have hs : Sorted .fwd E := by
+    subst hE
+    cases rows (applyAll apply ws w) k with
+    | none => exact List.Pairwise.nil
+    | some xs => exact sorted_sortD
+  simp only [setRowSpec, hE, Spec.method, setSymSpec, Option.map_some, List.map_cons, List.map_append, List.map_nil]
+  rw [getLast?_cons_snoc, Spec.seekIn, dropWhile_eq_filter v hs, not_before_fwd]
+  cases (E.filter fun x => decide (v ≤ x)) <;> rfl
+
+/-- **Re-sought after single-key writes.**  The set symbol is opened on row `k` (after any writes `ws0`, from any
+    state), driven by any script, then the row is written WITHOUT replacing its bucket object (`ident` unchanged:
+    keys put / deleted, links added / removed) and `SeekToString v` is called on the object as it stands: it
+    lands on the first element `≥ v` of the CURRENT set — bbolt searches the live bucket from its root —, and
+    the following operations follow the current set's specification. -/
+theorem reseek_after_keywrite_setsym {ω κ ι W : Type} [DecidableEq ι] (rows : ω → κ → Option (List Bytes))
+    (ident : ω → κ → ι) (hid : ∀ w0 w k, ident w0 k = ident w k → (rows w0 k).isSome = (rows w k).isSome)
+    (apply : W → ω → ω) (ws0 ws : List W) (k : κ) (ops0 ops : List Op) (v : Bytes) (w : ω) (s : SetSymCur)
+    (hsame : ident (applyAll apply ws0 w) k = ident (applyAll apply ws (applyAll apply ws0 w)) k) :
+    (setSymW rows ident).run apply [⟨ws0, .open k, ops0⟩, ⟨ws, .seekS v, ops⟩] w none s =
+      ((setRowSpec (rows (applyAll apply ws0 w) k)).openRun ops0).map (Obs.render renderNilEmpty) ++
+      (let cur := setRowSpec (rows (applyAll apply ws (applyAll apply ws0 w)) k)
+       (Spec.observe (Spec.seekIn .fwd cur.list v) :: cur.run ops (Spec.seekIn .fwd cur.list v)).map
+         (Obs.render renderNilEmpty)) := by
+  rw [write_script_setsym rows ident hid]
+  simp [specRunW, specEnter, Spec.openRun, hsame, setRowSpec, setSymSpec]
+
+/-- **The bolt cursor adapters, re-sought after single-key writes** (`ForwardBoltCursor`, `ReverseBoltCursor`,
+    `TypedForward/TypedReverseBoltCursor` as handed out by `TypedBucket`, `GetRelatedEntitiesCursor`, `IterateLinks`):
+    every script of writes / `open` (a new cursor) / `Seek` on the live cursor follows the list specification of the
+    bucket's CURRENT keys — forward: first element `≥ v`; reverse: last element `≤ v`. -/
+theorem write_script_bolt {ω κ ι W : Type} [DecidableEq ι] (tag : UInt8) (elems : ω → κ → List Bytes) (ident : ω → κ → ι)
+    (hE : ∀ w k, Asc (elems w k)) (apply : W → ω → ω) (items : List (Item W κ)) (w : ω) (s : BoltCur) :
+    (tfwdW tag elems ident).run apply items w none s =
+      specRunW (fun w k => Spec.seekable .fwd (elems w k)) (fun _ _ => some) ident true apply items w none ∧
+    (trevW tag elems ident).run apply items w none s =
+      specRunW (fun w k => Spec.seekable .rev (elems w k).reverse) (fun _ _ => some) ident true apply items w none ∧
+    (fwdW elems ident).run apply items w none s =
+      specRunW (fun w k => Spec.seekable .fwd (elems w k)) (fun _ _ => some) ident true apply items w none ∧
+    (revW elems ident).run apply items w none s =
+      specRunW (fun w k => Spec.seekable .rev (elems w k).reverse) (fun _ _ => some) ident true apply items w none :=
+  ⟨(tfwdW_implements tag elems ident).run_eq apply items w s, (trevW_implements tag elems ident hE).run_eq apply items w s,
+    (fwdW_implements elems ident).run_eq apply items w s, (revW_implements elems ident hE).run_eq apply items w s⟩
+
+/-- **Objects that are only re-opened** (a composite set symbol's stacked cursor, the sub-query scanner over
+    it, the paged sub-query scanner, a provider): if in every world the object implements the row specifications
+    of that world from every state (`reopen_stacked`, `reopen_subquery_*`), then over a written world every
+    script of `writes; open k; operations` shows, item by item, the specification of the row in the world of that item. -/
+theorem reopen_after_write_any {ω σ κ W : Type} {U : ω → Reusable σ κ} {S : ω → κ → Spec} {r : ω → κ → Render}
+    (h : ∀ w, (U w).Implements (S w) (r w)) (apply : W → ω → ω) (items : List (Item W κ)) (w : ω) (s : σ) :
+    (WObject.ofFamily U).run apply items w none s = specRunW S r (fun _ _ => ()) false apply items w none :=
+  (WObject.ofFamily_implements h).run_eq apply items w s
+
+/-- … the stacked cursor of a composite set symbol whose chain reads the written world -/
+theorem reopen_after_write_stacked {ω κ W : Type} (chain : ω → Level × List Level) (rowOf : κ → Option Bytes) (fuel : Nat)
+    (hf : ∀ w k, stackedFuel ((chain w).1 :: (chain w).2) (rowOf k) ≤ fuel)
+    (apply : W → ω → ω) (items : List (Item W κ)) (w : ω) (s : StackedCur) :
+    (WObject.ofFamily fun w => compReusable ((chain w).1 :: (chain w).2) fuel rowOf).run apply items w none s =
+      specRunW (fun w k => Spec.plain (stackedKeys ((chain w).1 :: (chain w).2) (rowOf k))) (fun _ _ => rowKeyOf)
+        (fun _ _ => ()) false apply items w none :=
+  reopen_after_write_any (fun w => compReusable_implements (chain w).1 (chain w).2 fuel rowOf (hf w)) apply items w s
+
+/-- … the paged sub-query scanner (`Next` only) around ANY re-used symbol object: every opening shows the window
+    `drop S / take L` of the accepted rows of the row's CURRENT set -/
+theorem reopen_after_write_subquery_paged {ω σ κ W : Type} {U : ω → Reusable σ κ} {S : ω → κ → Spec} {r : ω → κ → Render}
+    (h : ∀ w, (U w).Implements (S w) (r w)) (cfg : ScanCfg) {fuel : Nat} (hf : ∀ w k, (S w k).list.length < fuel)
+    (apply : W → ω → ω) (items : List (Item W κ)) (w : ω) (st : ScanState σ) :
+    (WObject.ofFamily fun w => (scanReusable (U w) cfg fuel).nextOnly).run apply items w none st =
+      specRunW (fun w k => Spec.plain (cfg.page 0 0 ((S w k).list.filter (cfg.keepR (r w k))))) r
+        (fun _ _ => ()) false apply items w none :=
+  reopen_after_write_any (fun w => scanReusable_implementsP (h w) cfg (hf w)) apply items w st
+
+/-- **The sub-query scanner over the set symbol, re-opened and re-sought after writes** (no paging): the accepted
+    linked ids of the row's CURRENT set; `Seek` = the set symbol's raw seek in the live bucket, then the next accepted row. -/
+theorem write_script_subquery_setsym {ω κ ι W : Type} [DecidableEq ι] (rows : ω → κ → Option (List Bytes)) (ident : ω → κ → ι)
+    (hid : ∀ w0 w k, ident w0 k = ident w k → (rows w0 k).isSome = (rows w k).isSome)
+    (cfg : ω → ScanCfg) (hcfg : ∀ w, (cfg w).Unpaged) (fuel : Nat)
+    (hf : ∀ w k, (setRowSpec (rows w k)).list.length + 1 < fuel)
+    (apply : W → ω → ω) (items : List (Item W κ)) (w : ω) (st : ScanState SetSymCur) :
+    (scanW (setSymW rows ident) cfg fuel).run apply items w none st =
+      specRunW (fun w k => scanSpecR (setRowSpec (rows w k)) renderNilEmpty ((cfg w).keepR renderNilEmpty))
+        (fun _ _ => renderNilEmpty) ident true apply items w none :=
+  (scanW_implements (setSymW_implements rows ident hid) (fun _ _ => setSymSpec_stateless _) hcfg hf
+    (fun _ _ => ⟨_, rfl⟩)).run_eq apply items w st
+
+theorem keepR_some (cfg : ScanCfg) : cfg.keepR some = cfg.keep := by
+  funext x; simp [ScanCfg.keepR]
+
+theorem seekable_stateless (d : Dir) (L : List Bytes) : (Spec.seekable d L).SeekStateless := by
+  intro g hg v rem
+  simp only [Spec.std, if_true, Option.some.injEq] at hg
+  subst hg
+  exact ⟨rfl, seekIn_length_le d L v⟩
+
+/-- **The id cursor (`IterateIds`) over a written world.**  The ids of the store AND the verdict of the filter
+    on each row change between the operations (an entity updated so that it stops / starts matching, created,
+    deleted).  For every script of `writes; entry; operations` — entry = a new `IterateIds` cursor, or `Seek v` on
+    the live one — and every initial state: after the entry the cursor shows the ids the filter accepts ON THE
+    CURRENT DATA, in key order; `Seek v` re-reads the entities bucket and asks the filter again. -/
+theorem write_script_idcursor {ω W : Type} (ids : ω → List Bytes) (cfg : ω → ScanCfg) (hcfg : ∀ w, (cfg w).Unpaged)
+    (fuel : Nat) (hf : ∀ w, (ids w).length + 1 < fuel) (apply : W → ω → ω) (items : List (Item W Unit)) (w : ω)
+    (st : ScanState BoltCur) :
+    (idCursorW ids cfg fuel).run apply items w none st =
+      specRunW (fun w _ => idSpec (ids w) (cfg w).keep) (fun _ _ => some) (fun _ _ => ()) true apply items w none := by
+  have h := (scanW_implements (fwdW_implements (fun w (_ : Unit) => ids w) (fun _ _ => ()))
+    (fun w _ => seekable_stateless .fwd (ids w)) hcfg (fuel := fuel) (fun w _ => hf w) (fun _ _ => ⟨_, rfl⟩)).run_eq apply items w st
+  simp only [keepR_some] at h
+  exact h
+
+/-- **Seek back to a row whose verdict changed.**  An id cursor is opened (after any writes `ws0`, from any state),
+    driven by any script — e.g. it stands on row `v` —, then the world is written (`ws`: row `v` is updated so that
+    the filter no longer accepts it, or deleted, or a smaller matching id is created) and `Seek v` is called on the
+    SAME cursor: it stands on the first id `≥ v` that the filter accepts on the CURRENT data, or is invalid. -/
+theorem idcursor_seek_after_write {ω W : Type} (ids : ω → List Bytes) (hids : ∀ w, Sorted .fwd (ids w)) (cfg : ω → ScanCfg)
+    (hcfg : ∀ w, (cfg w).Unpaged) (fuel : Nat) (hf : ∀ w, (ids w).length + 1 < fuel) (apply : W → ω → ω)
+    (ws0 ws : List W) (ops0 : List Op) (v : Bytes) (w : ω) (st : ScanState BoltCur) :
+    ((idCursorW ids cfg fuel).run apply [⟨ws0, .open (), ops0⟩, ⟨ws, .seek v, []⟩] w none st).getLast? =
+      some (let w2 := applyAll apply ws (applyAll apply ws0 w)
+        match (((ids w2).filter (cfg w2).keep).filter (fun x => decide (v ≤ x))).head? with
+        | some x => .value (some x)
+        | none => .invalid) := by
+  rw [write_script_idcursor ids cfg hcfg fuel hf]
+  simp only [specRunW, specEnter]
+  generalize applyAll apply ws (applyAll apply ws0 w) = w2
+  simp only [idSpec, Bool.true_and, decide_true, if_true, Spec.run, List.map_cons, List.map_nil, List.append_nil]
+  rw [List.getLast?_append, List.getLast?_singleton]
+  rw [Option.some_or, Option.some.injEq]
+  rw [seekIn_filter (hids w2), Spec.seekIn, dropWhile_eq_filter v (sorted_filter _ (hids w2)), not_before_fwd]
+  cases (((ids w2).filter (cfg w2).keep).filter fun x => decide (v ≤ x)) <;> rfl
+
+/-! the write paths of the concrete world (Cursor/World.lean) -/
+
+theorem World.find_modify (w : World) (id k : Bytes) (f : WThing → WThing) (hf : ∀ t, (f t).id = t.id) :
+    (w.modify id f).find k = (w.find k).map fun t => if t.id == id then f t else t := by
+  unfold World.find World.modify
+  simp only
+  induction w.things with
+  | nil => rfl
+  | cons t ts ih =>
+    simp only [List.map_cons, List.find?_cons]
+    have hid' : (if (t.id == id) = true then f t else t).id = t.id := by
+      split
+      · exact hf t
+      · rfl
+    rw [hid']
+    cases hk : t.id == k with
+    | true => rfl
+    | false => exact ih
+
+/-- **`store.Update` of the row the cursor stands on**: the `tags` bucket of thing `id` is deleted and re-created
+    with `tags`; the set symbol re-opened on `id` — from whatever state, e.g. opened on `id` just before — enumerates
+    exactly `tags`, once each, in key order (an emptied set: invalid at once); the bucket object is a new one. -/
+theorem reopen_after_update (w : World) (id : Bytes) (tags : List Bytes) (t : WThing) (ht : w.find id = some t) (hti : t.id = id)
+    (ops : List Op) (s : SetSymCur) :
+    (setSymW World.tagsOf World.tagsIdent).run World.applyWrite [⟨[.setTags id tags], .open id, ops⟩] w none s =
+      ((setSymSpec (dedupSort tags)).openRun ops).map (Obs.render renderNilEmpty) ∧
+    (World.tagsIdent (World.applyWrite (.setTags id tags) w) id ≠ World.tagsIdent w id ∨ t.gen = w.clock + 1) := by
+  have hfind : (World.applyWrite (.setTags id tags) w).find id = some { t with tags := tags, gen := w.clock + 1 } := by
+    have h0 : ({ w with clock := w.clock + 1 } : World).find id = some t := ht
+    have := World.find_modify { w with clock := w.clock + 1 } id id
+      (fun t => { t with tags := tags, gen := w.clock + 1 }) (fun _ => rfl)
+    simpa [World.applyWrite, h0, hti] using this
+  refine ⟨?_, ?_⟩
+  · rw [open_item (setSymW_implements World.tagsOf World.tagsIdent World.tagsIdent_some)]
+    simp [applyAll, World.tagsOf, hfind, setRowSpec]
+  · by_cases hg : t.gen = w.clock + 1
+    · exact .inr hg
+    · refine .inl ?_
+      simp only [World.tagsIdent, hfind, ht, Option.map_some, ne_eq, Option.some.injEq, Prod.mk.injEq, and_true, true_and]
+      exact fun h => hg h.symm
+
+/-- **The entity deleted under the cursor**: re-opened on the deleted row the set symbol is invalid at once and stays so. -/
+theorem reopen_after_delete (w : World) (id : Bytes) (ops : List Op) (s : SetSymCur) :
+    (setSymW World.tagsOf World.tagsIdent).run World.applyWrite [⟨[.delete id], .open id, ops⟩] w none s =
+      List.replicate (ops.length + 1) .invalid := by
+  rw [open_item (setSymW_implements World.tagsOf World.tagsIdent World.tagsIdent_some)]
+  have hnone : (World.applyWrite (.delete id) w).find id = none := by
+    simp only [World.applyWrite, World.find, List.find?_eq_none, List.mem_filter]
+    intro t ht
+    simpa using ht.2
+  simp only [applyAll, List.foldl, World.tagsOf, hnone, Option.map_none, setRowSpec, Option.getD_none, Spec.openRun,
+    show (setSymSpec []).list = [] from rfl, setSymSpec_nil_run]
+  simp [Spec.observe, Obs.render, List.replicate_succ]
+
+/-- the sample of the class: `tags` of row `e` = {a, b, c}; opened, rewritten to {b, d} by an update, re-opened on the
+    same row with no other row in between: b, d — then emptied: invalid at once -/
+example : (setSymW World.tagsOf World.tagsIdent).run World.applyWrite
+    [⟨[], .open [101], [.next]⟩, ⟨[.setTags [101] [[98], [100]]], .open [101], [.next, .next]⟩,
+     ⟨[.setTags [101] []], .open [101], []⟩]
+    { things := [{ id := [101], tags := [[97], [98], [99]], others := [], boss := none, rc := none }], others := [] } none setSymNew =
+    [.value (some [97]), .value (some [98]), .value (some [98]), .value (some [100]), .invalid, .invalid] := by decide
+
+/-- a re-seek is answered only while the bucket object is the same: after a single key put it is, after the update it is not -/
+example : (setSymW World.tagsOf World.tagsIdent).run World.applyWrite
+    [⟨[], .open [101], []⟩, ⟨[.putTag [101] [96]], .seekS [], []⟩, ⟨[.setTags [101] [[98]]], .seekS [], []⟩]
+    { things := [{ id := [101], tags := [[97]], others := [], boss := none, rc := none }], others := [] } none setSymNew =
+    [.value (some [97]), .value (some [96]), .failed "unspecified"] := by decide
+
+/-- the id cursor stands on `e1`, `e1` stops matching, `Seek e1`: the next matching id (the second sample of C14-21) -/
+example : (idCursorW World.ids
+      (fun w => { skipRow := fun _ => false, filter := fun id => ((w.tagsOf id).getD []).contains [120],
+                  targetOffset := 0, targetLimit := none }) 9).run World.applyWrite
+    [⟨[], .open (), []⟩, ⟨[.setTags [101, 49] [[121]]], .seek [101, 49], [.next]⟩]
+    { things := [{ id := [101, 49], tags := [[120]], others := [], boss := none, rc := none },
+                 { id := [101, 50], tags := [[122]], others := [], boss := none, rc := none },
+                 { id := [101, 51], tags := [[120]], others := [], boss := none, rc := none }], others := [] } none
+    { cursor := newForwardBoltCursor [], current := none, offset := 0, collected := 0 } =
+    [.value (some [101, 49]), .value (some [101, 51]), .invalid] := by decide
+
+/-- non-vacuity of the identity hypothesis: the identities of the concrete world tell existing from missing buckets -/
+example : ∀ w0 w k, World.rcIdent w0 k = World.rcIdent w k → (World.rcOf w0 k).isSome = (World.rcOf w k).isSome :=
+  World.rcIdent_some
+
 end StorageModel.Properties.C14
 
 #print axioms StorageModel.Properties.C14.next_seek_mix
@@ -625,3 +907,16 @@ end StorageModel.Properties.C14
 #print axioms StorageModel.Properties.C14.scan_fallback_seek
 #print axioms StorageModel.Properties.C14.reopen_subquery_paged
 #print axioms StorageModel.Properties.C14.interleaved_cursors_independent
+#print axioms StorageModel.Properties.C14.write_script_setsym
+#print axioms StorageModel.Properties.C14.reopen_after_write_enumerates_current
+#print axioms StorageModel.Properties.C14.seek_after_reopen_after_write
+#print axioms StorageModel.Properties.C14.reseek_after_keywrite_setsym
+#print axioms StorageModel.Properties.C14.write_script_bolt
+#print axioms StorageModel.Properties.C14.reopen_after_write_any
+#print axioms StorageModel.Properties.C14.reopen_after_write_stacked
+#print axioms StorageModel.Properties.C14.reopen_after_write_subquery_paged
+#print axioms StorageModel.Properties.C14.write_script_subquery_setsym
+#print axioms StorageModel.Properties.C14.write_script_idcursor
+#print axioms StorageModel.Properties.C14.idcursor_seek_after_write
+#print axioms StorageModel.Properties.C14.reopen_after_update
+#print axioms StorageModel.Properties.C14.reopen_after_delete
